@@ -1,6 +1,6 @@
 (* C03 — quantification and nested apply equal operate-then-project. *)
 From Coq Require Import List NArith Bool. Import ListNotations.
-From BddVerif Require Import Model.Bdd Model.Apply Model.Ops Model.Nested Proofs.Sem Proofs.Canon Proofs.ApplySem Proofs.ApplyTop Proofs.QuantSem Proofs.NestedSem.
+From BddVerif Require Import Model.Bdd Model.Apply Model.Ops Model.Nested Model.Alias Proofs.Sem Proofs.Canon Proofs.ApplySem Proofs.ApplyTop Proofs.QuantSem Proofs.NestedSem.
 Open Scope N_scope.
 
 Theorem C03_var_exists : forall b x, wf b -> x < nvars b ->
@@ -148,3 +148,64 @@ Example C03_nested_engine_example :
   = Ok [mkNode 3 0 0; mkNode 3 1 1; mkNode 0 0 1].
 Proof. vm_compute. reflexivity. Qed.
 Print Assumptions C03_nested_engine_example.
+
+(* ---- the efficient version of the nested apply (Model/NestedFast.v: PositiveMap operands, the growing store that the
+   inner engine reads as a PositiveMap keyed by index plus a size counter, PositiveMap caches, PositiveMap pointer map
+   in fix_alignment) that the correspondence driver runs on operands above 300 nodes computes exactly the reference
+   algorithm's outcome, for ALL inputs (no hypotheses) ---- *)
+From BddVerif Require Import Model.NestedFast Proofs.NestedFast.
+
+Theorem C03_nested_fast_engine_refines : forall A B trigger outer inner,
+  nested_apply_fn_fast A B trigger outer inner = nested_apply_fn A B trigger outer inner.
+Proof. exact nested_apply_fn_fast_eq. Qed.
+Print Assumptions C03_nested_fast_engine_refines.
+
+Theorem C03_nested_fast_refines : forall A B trig outer inner,
+  nested_apply_faithful_fast A B trig outer inner = nested_apply_faithful A B trig outer inner.
+Proof. exact nested_apply_faithful_fast_eq. Qed.
+Print Assumptions C03_nested_fast_refines.
+
+Theorem C03_nested_fast_bin_exists_refines : forall a b op vars,
+  binary_op_with_exists_faithful_fast a b op vars = binary_op_with_exists_faithful a b op vars.
+Proof. exact binary_op_with_exists_faithful_fast_eq. Qed.
+Print Assumptions C03_nested_fast_bin_exists_refines.
+
+Theorem C03_nested_fast_bin_for_all_refines : forall a b op vars,
+  binary_op_with_for_all_faithful_fast a b op vars = binary_op_with_for_all_faithful a b op vars.
+Proof. exact binary_op_with_for_all_faithful_fast_eq. Qed.
+Print Assumptions C03_nested_fast_bin_for_all_refines.
+
+Theorem C03_nested_fast_exists_refines : forall b vars, bdd_exists_faithful_fast b vars = bdd_exists_faithful b vars.
+Proof. exact bdd_exists_faithful_fast_eq. Qed.
+Print Assumptions C03_nested_fast_exists_refines.
+
+Theorem C03_nested_fast_for_all_refines : forall b vars, bdd_for_all_faithful_fast b vars = bdd_for_all_faithful b vars.
+Proof. exact bdd_for_all_faithful_fast_eq. Qed.
+Print Assumptions C03_nested_fast_for_all_refines.
+
+Theorem C03_nested_fast_correct : forall A B trigger outer inner (u : bool),
+  wf A -> wf B -> nvars A = nvars B -> total2 outer -> consistent2 outer ->
+  builtin_ok inner (if u then andb else orb) ->
+  exists r, nested_apply_fn_fast A B trigger outer inner = Ok r /\ Canonical r /\ wf r /\ nvars r = nvars A /\
+    forall v, eval r v = true <-> qtr trigger u (fun w => bop_of outer (eval A w) (eval B w)) v.
+Proof. exact nested_fn_fast_correct. Qed.
+Print Assumptions C03_nested_fast_correct.
+
+Example C03_nested_fast_example :
+  nested_apply_faithful_fast [mkNode 3 0 0; mkNode 3 1 1; mkNode 1 0 1; mkNode 0 0 2]
+                             [mkNode 3 0 0; mkNode 3 1 1; mkNode 1 0 1; mkNode 0 0 2] [false; true] op_or op_or
+  = Ok [mkNode 3 0 0; mkNode 3 1 1; mkNode 0 0 1].
+Proof. exact nested_fast_example. Qed.
+Print Assumptions C03_nested_fast_example.
+
+(* the deprecated aliases project / var_project (Model/Alias.v) are exists / var_exists *)
+Theorem C03_project_alias : forall b vars, wf b ->
+  exists r, bdd_project_alias b vars = Ok r /\ Canonical r /\ wf r /\ nvars r = nvars b /\
+    forall v, eval r v = true <-> exists w, (forall y, ~ In y vars -> w y = v y) /\ eval b w = true.
+Proof. exact bdd_exists_correct. Qed.
+Print Assumptions C03_project_alias.
+Theorem C03_var_project_alias : forall b x, wf b -> x < nvars b ->
+  exists r, var_project_alias b x = Ok r /\ Canonical r /\ nvars r = nvars b /\
+    forall v, eval r v = true <-> exists c, eval b (upd v x c) = true.
+Proof. exact var_exists_spec. Qed.
+Print Assumptions C03_var_project_alias.
